@@ -169,7 +169,7 @@ THOROUGH = dict(
 def plan(tier):
     if tier == 'quick':
         return [
-            dict(name='grammar-quick', fn='h_equal', depth=10, budget_s=300, cfg=QUICK, bounds=QUICK_BOUNDS,
+            dict(name='grammar-quick', fn='h_equal', depth=10, budget_s=900, cfg=QUICK, bounds=QUICK_BOUNDS,
                  min_nontrivial=500, must_reach=['same-parameters', 'same-provenance']),
             dict(name='posonly-outer', fn='h_equal', depth=8, budget_s=120,
                  cfg=dict(groups=['contexts'], Ko=1, Kc=1, kmax=0, nmax=0, route_list=['self', 'param-partial'],
